@@ -42,6 +42,10 @@ def generate(rng, tier):
                 files = []
                 for _ in range(nfiles):
                     pk = [d.encode(rng.choice(leaves), "exact") for _ in range(rng.randrange(1, 7))]
+                    if rng.random() < 0.3:
+                        # a file that ends in a cut-off packet: the remainder belongs to no row, and not to the next file
+                        extra = d.encode(rng.choice(leaves), "exact")
+                        pk.append(extra[:rng.randrange(1, len(extra))])
                     files.append([hx(b"".join(pk))])
                 yield f"dataset {dsx} {raw} {sx(files)}", f"{'raw' if raw == '1' else 'derived'}-{nfiles}files"
     # streams whose packets of one APID differ in field set must be rejected
